@@ -66,6 +66,7 @@ type Obligation struct {
 	Cover     bool   // vacuity cover query: must be SAT
 	Candidate string
 	Rets      []*Val // post obligations: the values returned on this path
+	Static    bool   // decided by the effect (write-set) inference, not by a solver; Status/Result are pre-set
 	Raw       string // complete SMT script (obligations not generated from a function body); unsat = discharged
 }
 
